@@ -62,8 +62,12 @@ def _alarm(signum, frame):
 
 def real_search(pid, s, pos, mode):
     parts, cfg = parts_of(pid, s)
+    # the limit is CPU time of this process (30 s), so that a loaded machine cannot make a healthy matcher look hung;
+    # wall clock only as a distant backstop
+    signal.signal(signal.SIGPROF, _alarm)
     signal.signal(signal.SIGALRM, _alarm)
-    signal.setitimer(signal.ITIMER_REAL, 5.0)
+    signal.setitimer(signal.ITIMER_PROF, 30.0)
+    signal.setitimer(signal.ITIMER_REAL, 600.0)
     try:
         if cfg is not None and mode:
             m = nm.find(cfg['search'], s, pos=pos, prefix=cfg['prefix'])
@@ -74,6 +78,7 @@ def real_search(pid, s, pos, mode):
         else:
             r = nm.search(parts, s, pos=pos, search=mode)
     finally:
+        signal.setitimer(signal.ITIMER_PROF, 0)
         signal.setitimer(signal.ITIMER_REAL, 0)
     return r
 
@@ -266,7 +271,7 @@ def run_cases(ctx, cs, diffs):
         try:
             r = real_search(pid, s, pos, mode)
         except Hang:
-            ctx.report('matcher-hangs', f'nestedmatcher did not return within 5 s on {pid}', scen)
+            ctx.report('matcher-hangs', f'nestedmatcher did not return within 30 s of CPU time on {pid}', scen)
             continue
         except Exception as e:
             ctx.report('matcher-raises', f'nestedmatcher raised {type(e).__name__}: {e}', scen)
@@ -323,7 +328,7 @@ def run(ctx):
             try:
                 r = real_search(pid, text, pos, mode)
             except Hang:
-                ctx.report('matcher-hangs', f'nestedmatcher did not return within 5 s on {pid} with {n}-deep nesting', scen)
+                ctx.report('matcher-hangs', f'nestedmatcher did not return within 30 s of CPU time on {pid} with {n}-deep nesting', scen)
                 continue
             except Exception as e:
                 ctx.report('matcher-raises', f'nestedmatcher raised {type(e).__name__} on {pid} with {n}-deep nesting', scen)
